@@ -27,6 +27,7 @@ SECTION_TEXT = {
     "bip44": "BIP 44 derivation",
     "codec": "string codec",
     "gap": "gap-limit address list",
+    "meet": "request intersection",
 }
 
 
@@ -53,7 +54,7 @@ def emit(ctx, d, maxpath, maxline):
     paths = rp.prints("PATH")
     cases = rc.prints("CASE")
     tables = []
-    for t in ("CODEC", "GAP"):
+    for t in ("CODEC", "GAP", "MEET"):
         for r in rp.prints(t):
             r["table"] = t
             tables.append(r)
@@ -76,7 +77,8 @@ def vacuity(paths, cases, tables):
     if len(set(tuple(sorted(c["comps"])) for c in cases)) != 8:
         raise lib.ToolError("vacuity: not all 8 component subsets in the decision table")
     if not any(t["table"] == "CODEC" and not t["ok"] for t in tables) or \
-            not any(t["table"] == "GAP" and "ua" in t["allowed"] for t in tables):
+            not any(t["table"] == "GAP" and "ua" in t["allowed"] for t in tables) or \
+            len(set(t["res"]["k"] for t in tables if t["table"] == "MEET")) != 3:
         raise lib.ToolError("vacuity: codec / gap tables degenerate")
 
 
@@ -145,13 +147,13 @@ def run(ctx):
         raise lib.ToolError("vacuity: index lines never realised on a real key: %s" % res["missing_lines"])
     c = res["counts"]
     if c.get("keys", 0) < res["keys"] or c.get("case_evaluations", 0) < 1000 or c.get("notes_encrypted", 0) < 10 \
-            or c.get("gap_cases", 0) < 100 or c.get("codec_cases", 0) < 63 or c.get("paths", 0) < len(paths):
+            or c.get("gap_cases", 0) < 100 or c.get("codec_cases", 0) < 63 or c.get("meet_cases", 0) < 576 or c.get("paths", 0) < len(paths):
         if not res["mismatches"]:
             raise lib.ToolError("vacuity: harness executed too little: %s" % c)
     report(ctx, res, maxpath, maxline)
 
     ctx.traces = c.get("paths", 0) + c.get("case_evaluations", 0) + c.get("gap_cases", 0) + c.get("codec_cases", 0) \
-        + c.get("notes_encrypted", 0) + c.get("bip44_derivations", 0)
+        + c.get("notes_encrypted", 0) + c.get("bip44_derivations", 0) + c.get("meet_cases", 0)
     ctx.add_sample({"path": [s["a"] for s in paths[len(paths) // 2]["path"]], "lvl": paths[len(paths) // 2]["lvl"],
                     "comps": paths[len(paths) // 2]["comps"], "ok": paths[len(paths) // 2]["ok"]})
     for i in (len(cases) // 3, 2 * len(cases) // 3, len(cases) - 5):
@@ -215,7 +217,7 @@ def selftest(ctx):
         hit = [m for m in res["mismatches"] if m["section"] == section_hit]
         return res, hit
 
-    res, hit = expect("clean", paths, cases, tables, ["paths", "codec", "gap", "decrypt", "bip44"], "case")
+    res, hit = expect("clean", paths, cases, tables, ["paths", "codec", "gap", "decrypt", "bip44", "meet"], "case")
     if res["mismatches"]:
         raise lib.ToolError("selftest: unperturbed inputs are reported: %s" % res["mismatches"][0]["what"])
 
@@ -258,4 +260,10 @@ def selftest(ctx):
     _, hit = expect("gap", paths, cases, t3, ["gap"], "gap")
     if not hit:
         raise lib.ToolError("selftest: perturbed BIP 44 change level was not reported")
+    t4 = json.loads(json.dumps(tables))
+    i = next(i for i, t in enumerate(t4) if t["table"] == "MEET" and t["res"]["k"] == "ok" and t["res"]["t"] == "Allow")
+    t4[i]["res"]["t"] = "Require"
+    _, hit = expect("meet", paths, cases, t4, ["meet"], "meet")
+    if not hit:
+        raise lib.ToolError("selftest: perturbed request intersection was not reported")
     lib.log("selftest ok: perturbed receiver set, find offset, path verdict, component set, codec and gap entries all reported")
